@@ -10,7 +10,7 @@ Inductive case :=
 | CJoin (a c : str)
 | CEsc (p : str)
 | CWithin (p d : str)
-| COutpath (p i : str)
+| COutpath (rootc : list str) (p i : str)
 | CWs (rootc : list str) (p i : str).
 
 Definition cls_name (c : cls) : str :=
@@ -31,7 +31,7 @@ Definition do_graph (rc : list str) (g : nodes) : str :=
   match classes rc g with
   | [Dup] => L "dup"
   | _ =>
-      let gc := match show (L "+") (graph_classes g) with None => L "ok" | Some s => s end in
+      let gc := match show (L "+") (graph_classes rc g) with None => L "ok" | Some s => s end in
       let cc := match show (L ",") (constraint_classes rc g) with None => L "-" | Some s => s end in
       let v := match validate rc g with Accept => L "accept" | Reject _ => L "reject" end in
       tabs [L "graph=" ++ gc; L "cons=" ++ cc; v]
@@ -44,6 +44,6 @@ Definition run_case (c : case) : str :=
   | CJoin a c => hex (join_path [a; c])
   | CEsc p => b01 (tries_to_escape p)
   | CWithin p d => b01 (path_within p d)
-  | COutpath p i => hex (clean_output_path p i)
+  | COutpath rc p i => hex (clean_output_path rc p i)
   | CWs rc p i => b01 (is_within_workspace rc p i)
   end.
